@@ -144,7 +144,7 @@ struct VecWorld : World {
         case V_TOARRAY: {
             size_t cnt = (size_t)-1; void *p;
             { InSut s; p = q->toarray(q, &cnt); }
-            if (!p) return R_fail(num((long long)cnt));
+            if (!p) return R_fail();    // what *size holds after a refused call is not specified
             Bytes got((const char *)p, cnt * (size_t)es);
             x.hold(p, got, "vector.toarray");
             return R_ok(num((long long)cnt) + ":" + encs(got));
@@ -201,7 +201,7 @@ struct VecWorld : World {
         if (!q) return;
         if (q->num > q->max) x.fail("structure", "struct", "element count " + num((long long)q->num) + " exceeds capacity " + num((long long)q->max));
         if (q->objsize != (size_t)es) x.fail("structure", "struct", "element size changed from " + num(es) + " to " + num((long long)q->objsize));
-        if ((q->data == nullptr) != (q->max == 0)) x.fail("structure", "struct", "buffer pointer and capacity disagree");
+        if (q->max > 0 && q->data == nullptr) x.fail("structure", "struct", "capacity " + num((long long)q->max) + " without a buffer");
         x.st.add("struct.checks");
 #endif
     }
@@ -235,7 +235,7 @@ Result VecModel::apply(const Op &op) {
     case V_RESIZE: { size_t nm = VecWorld::newmax_of(op, n); if (n > nm) v.resize(nm); return R_ok(); }
     case V_CLEAR: v.clear(); return R_ok();
     case V_SIZE: return R_ok(num((long long)n));
-    case V_TOARRAY: { if (n == 0) return R_fail("0"); Bytes all; for (auto &e : v) all += e; return R_ok(num((long long)n) + ":" + encs(all)); }
+    case V_TOARRAY: { if (n == 0) return R_fail(); Bytes all; for (auto &e : v) all += e; return R_ok(num((long long)n) + ":" + encs(all)); }
     case V_WALK: case V_LOCKEDWALK: { Bytes o; for (auto &e : v) enc(o, e); return R_ok(o + "$"); }
     case V_WALKSHRINK: {
         Bytes out; size_t steps = (size_t)(op.a % 5) + 1, cnt = 0;
